@@ -54,7 +54,12 @@ class Effects:
                 if isinstance(v, ast.Call):
                     d = dotted_of(v.func)
                     if d:
-                        q = index.resolve(m, d)
+                        h_, _, r_ = d.partition(".")
+                        if h_ == name and h_ in m.imports:
+                            # `random = random.Random(seed)`: the right-hand side still sees the imported module
+                            q = index.canonical(m.imports[h_] + ("." + r_ if r_ else ""))
+                        else:
+                            q = index.resolve(m, d)
                         if q in RNG_OBJECT_CTORS:
                             self.rng_objects[f"{m.name}.{name}"] = q
 
